@@ -78,6 +78,7 @@ def scenarios(tier):
             L.append("leak2 %s %s" % (fl, ep))
             L.append("delhook %s %s" % (fl, ep))
             L.append("notifyhook %s %s" % (fl, ep))
+            L.append("delleak %s %s" % (fl, ep))
             for who in ("provided", "required", "name"):
                 L.append("hashhook %s %s %s" % (fl, ep, who))
             if fl == "verifying":
